@@ -132,8 +132,13 @@ def reference(ms, opts, syntax, explicit_list):
     return tuple(res)
 
 
-def check_merge(ms, share, opts, syntax, explicit_list):
+HOSTS_REPEAT = ('%s*2', '(%s+y)*2', 'p>%s*3')
+
+
+def check_merge(ms, share, opts, syntax, explicit_list, host=None):
     s = source(ms, share)
+    if host:
+        s = host % s
     o = dict(opts)
     o['output.format'] = False
     if explicit_list:
@@ -142,12 +147,20 @@ def check_merge(ms, share, opts, syntax, explicit_list):
     try:
         out = expand(s, {'syntax': syntax, 'options': o})
         ev = lex_html(out)
-        got = ev[0][2] if ev and ev[0][0] == 'o' else ('NO-TAG', out)
+        if host:
+            copies = [e[2] for e in ev if e[0] == 'o' and e[1] == 'x']
+            want = 3 if host.endswith('*3') else 2
+            if len(copies) != want:
+                return s, ('attrs:repeated-host-copies', dict(abbr=s, output=out[:200]))
+        else:
+            copies = [ev[0][2] if ev and ev[0][0] == 'o' else ('NO-TAG', out)]
     except Exception as e:
         return s, ('exception:%s' % type(e).__name__, str(e)[:200])
-    if len(got) == len(exp) and all(g == e or (e[1] == 'UNSPEC' and g[0] == e[0]) for g, e in zip(got, exp)):
-        return s, None
-    return s, (classify(exp, got), dict(abbr=s, expected=exp, actual=got, output=out[:200]))
+    for ci, got in enumerate(copies):
+        if not (len(got) == len(exp) and all(g == e or (e[1] == 'UNSPEC' and g[0] == e[0]) for g, e in zip(got, exp))):
+            return s, (classify(exp, got) + (':copy-%d-of-repeated-element' % (ci + 1) if host else ''),
+                       dict(abbr=s, expected=exp, actual=got, output=out[:200]))
+    return s, None
 
 
 def classify(exp, got):
@@ -206,6 +219,17 @@ def run_shard(shard, ctx, tier):
                             if bad:
                                 ctx.violation(bad[0], dict(mentions=[m[0] for m in ms], share=share, options=opts, syntax=syntax,
                                                            explicit_boolean_list=bl, abbr=s), bad[1])
+                            if n <= 2 and len(opts) <= 1:
+                                # the same element inside repeaters: every copy carries the same attribute list
+                                for host in HOSTS_REPEAT:
+                                    ctx.states += 1
+                                    ctx.transitions += 1
+                                    ctx.evals += 1
+                                    ctx.validated += 1
+                                    s2, bad = check_merge(ms, share, opts, syntax, bl, host)
+                                    if bad:
+                                        ctx.violation(bad[0], dict(mentions=[m[0] for m in ms], share=share, options=opts, syntax=syntax,
+                                                                   explicit_boolean_list=bl, abbr=s2, host=host), bad[1])
             ctx.outcome(tuple(sorted(set(names))) + (n,))
     if s:
         ctx.sample(dict(abbr=s))
@@ -289,7 +313,7 @@ def check_case(case):
         _, bad = check_payload(case['host'], tuple(case['units']))
         return [bad] if bad and bad != 'excluded' else []
     ms = tuple(BY_SRC[s] for s in case['mentions'])
-    _, bad = check_merge(ms, case['share'], case['options'], case['syntax'], case['explicit_boolean_list'])
+    _, bad = check_merge(ms, case['share'], case['options'], case['syntax'], case['explicit_boolean_list'], case.get('host'))
     return [bad] if bad else []
 
 
